@@ -56,12 +56,16 @@ fn parts_for(prop: &str, tier: Tier) -> Vec<Box<dyn explore::Harness>> {
         "C03" => vec![
             // one abandonment among n calls in flight, with a new call begun in the same step
             Box::new(burst::BurstHarness { prop: "C03", cfgs: burst::configs_many(burst::Side::ClientAbandonAmongMany, tier == Tier::Thorough) }),
+            Box::new(burst::BurstHarness { prop: "C03", cfgs: burst::configs_many(burst::Side::ClientAbandonSeveralOfMany, tier == Tier::Thorough) }),
             c(CProp::C03),
         ],
         "C04" => vec![
             // abandoning many calls in one step cancels every one of them (bursts; the sizes
             // enumerated for C11)
             Box::new(burst::BurstHarness { prop: "C04", cfgs: burst::configs(tier == Tier::Thorough).into_iter().filter(|c| c.side != burst::Side::Server).collect() }),
+            // several transmitted calls abandoned between two dispatch polls (an aborted handler
+            // that awaited a join of nested calls): every one is cancelled at the next hop
+            Box::new(burst::BurstHarness { prop: "C04", cfgs: burst::configs_many(burst::Side::ClientAbandonSeveralOfMany, tier == Tier::Thorough) }),
             hc(chain_props::HProp::C04),
             s(SProp::C04),
         ],
